@@ -1,4 +1,5 @@
 (* name -> extracted component *)
 let components : (string * Generic.component) list = [
   ("shardid", ShardIdComp.shardid_component);
+  ("pool", PoolComp.pool_component);
 ]
